@@ -73,7 +73,7 @@ def observe(ctx, progs, label):
                     if al is None or al["generics"]["params"] != got:
                         ctx.violate("alias-params", f"{p['name']}: alias {MSG_OF[k]} of {tname} has parameters {al and al['generics']['params']}", d)
             if part["id"] == "c":
-                allg = [g["name"] for g in p.get("generics", [])]
+                allg = ([p["lifetime"]] if p.get("lifetime") else []) + [g["name"] for g in p.get("generics", [])]
                 for wk in ("ContractExecMsg", "ContractQueryMsg", "ContractSudoMsg"):
                     it = types.get(wk)
                     if it is not None and it["generics"]["params"] != allg:
